@@ -6,6 +6,7 @@ import (
 	"net/url"
 	"reflect"
 	"strings"
+	"time"
 
 	"gitee.com/xuesongtao/protoc-go-valid/valid"
 	"vmon/internal/core"
@@ -90,6 +91,10 @@ func c17Type(rng *rand.Rand, id int) (reflect.Type, []int) {
 	return reflect.StructOf(fields), gidx
 }
 
+// c17Str / c17Key: defined string types (a value held in an interface member; the key type of a map input)
+type c17Str string
+type c17Key string
+
 // c17Value fills one object according to a pattern for its groups.
 func c17Value(rng *rand.Rand, t reflect.Type, gidx []int) (reflect.Value, string) {
 	v := reflect.New(t).Elem()
@@ -98,6 +103,7 @@ func c17Value(rng *rand.Rand, t reflect.Type, gidx []int) (reflect.Value, string
 	for f, gi := range gidx {
 		lastOf[gi] = f
 	}
+	ifaceMode := rng.Intn(4)
 	set := func(f reflect.Value, k int) {
 		switch f.Kind() {
 		case reflect.String:
@@ -120,7 +126,14 @@ func c17Value(rng *rand.Rand, t reflect.Type, gidx []int) (reflect.Value, string
 			f.SetBool(k%2 == 1)
 		case reflect.Interface:
 			if k != 0 {
-				f.Set(reflect.ValueOf([]interface{}{7, "a", 7.5, 8}[k%4]))
+				switch ifaceMode {
+				case 1: // members holding the same number under different dynamic types: not equal (as == on interfaces says)
+					f.Set(reflect.ValueOf([]interface{}{int(5), int64(5), time.Duration(5), int32(5), uint8(5)}[k%5]))
+				case 2: // ... and the same text under a defined string type
+					f.Set(reflect.ValueOf([]interface{}{"v", "v", c17Str("v"), "w", c17Str("w")}[k%5]))
+				default:
+					f.Set(reflect.ValueOf([]interface{}{7, "a", 7.5, 8}[k%4]))
+				}
 			}
 		case reflect.Ptr: // a fresh pointer for every member: equal values live at different addresses
 			if k == 0 {
@@ -520,8 +533,29 @@ func c17FlatCase(res *core.Result, rng *rand.Rand, idx int) {
 		exps := env.Finish()
 		var in interface{} = maps[0]
 		carrier := "map"
+		definedKey := rng.Intn(4) == 0 // the same entries in a map whose key type is a DEFINED string type: a map input like any other
+		if definedKey && !slice {
+			m := map[c17Key]string{}
+			for k, v := range maps[0] {
+				m[c17Key(k)] = v
+			}
+			in = m
+			res.Count("map_inputs_with_defined_string_key_type")
+		}
 		if slice {
 			in = maps
+			if definedKey {
+				ms := []map[c17Key]string{}
+				for _, mm := range maps {
+					m := map[c17Key]string{}
+					for k, v := range mm {
+						m[c17Key(k)] = v
+					}
+					ms = append(ms, m)
+				}
+				in = ms
+				res.Count("map_inputs_with_defined_string_key_type")
+			}
 			carrier = "slice-map"
 			if n >= 2 && fmt.Sprint(maps[0]) != fmt.Sprint(maps[1]) {
 				res.Count("multi_object_cases_patterns_differ")
